@@ -176,6 +176,24 @@ def check_obligations(prop, cfg=None):
     return res
 
 
+def coqchk(prop):
+    """Independent re-check of props/<prop>.vo and everything it depends on
+    (thorough tier): returns (ok, summary text)."""
+    with Lock("coq"):
+        rc, out = run(["coqchk", "-silent", "-o", "-Q", "theories", "DS", "-Q", "props", "DSP",
+                       "-Q", "run", "DSR", "DSP." + prop], cwd=COQ, timeout=3000)
+    m = re.search(r"CONTEXT SUMMARY(.*)", out, re.S)
+    summary = m.group(1) if m else out[-1500:]
+    axioms = re.search(r"\* Axioms:(.*?)\n\s*\n\* ", summary, re.S)
+    ax = axioms.group(1).strip() if axioms else "?"
+    names = [a.strip() for a in ax.split("\n") if a.strip() and a.strip() != "<none>"]
+    bad = [a for a in names if a not in AXIOM_ALLOW and a.split(".")[-1] not in AXIOM_ALLOW]
+    flat = re.sub(r"\s+", " ", summary)
+    clean = all(k in flat for k in ("type-in-type: <none>", "unsafe (co)fixpoints: <none>",
+                                    "positivity is assumed: <none>"))
+    return rc == 0 and not bad and clean, re.sub(r"\s+", " ", summary).strip()[:800]
+
+
 def eval_cases(prop, cfg, lines, shards=16, chunk=150):
     """Evaluate judge on every line's Gallina term; returns list of verdict codes."""
     if not lines:
@@ -325,6 +343,12 @@ def check_property(prop, cfg, tier, seed, replay_file=None):
         n_dis = 0
     for f in ob["failed"]:
         problems.append({"kind": "proof", "what": f})
+    chk = None
+    if thorough and ob["make_rc"] == 0 and not replay_file:
+        ok, summary = coqchk(prop)
+        chk = summary
+        if not ok:
+            problems.append({"kind": "proof", "what": "coqchk does not accept the compiled development: " + summary})
     model_runs = True
     if ob["make_rc"] != 0:
         # the model (no proofs in it) may still evaluate: try to build Run_ alone
@@ -462,6 +486,7 @@ def check_property(prop, cfg, tier, seed, replay_file=None):
             "checker_cmd": "make -C coq props/%s.vo (coqc 8.16.1, full .vo) + Print Assumptions per theorem + "
                            "forbidden-construct scan" % prop,
             "trusted_base": cfg["trusted_base"],
+            "coqchk": chk if chk is not None else "not run in this tier (thorough runs coqchk -o on the property's cone)",
             "theorems": ob["theorems"],
             "assumptions_per_theorem": ob["assumptions"],
             "evaluations": len(lines),
